@@ -27,8 +27,10 @@ prop("C03",
                "correspondence of the REAL FloatingIPPlugin with gxdrv_plugin step by step; monitor = independent Go "
                "reference evaluator of the documented policy at every release (event path: pod policy, resync: stored "
                "policy) and at every quiescent point, stored policy unchanged in memory and store; the whole 432-row decision "
-               "table executed on the real code (incl. scalable CR); forced two-goroutine schedule of the deployment "
-               "scale-down decision (IPAM decorator barrier after ByPrefix, bounded wait)",
+               "table executed on the real code (scalable CR rows through the REAL pkg/ipam/crd cache over the fake dynamic "
+               "client); forced two-goroutine schedules: deployment scale-down decision (IPAM decorator barrier after "
+               "ByPrefix) and first use of a custom-resource kind with the informer's initial LIST parked (bounded); restart "
+               "histories whose first event is a custom-resource pod's delete",
      factgen=["plugin", "c03"],
      drivers=["plugin"],
      trusted=["tools/factgen/cmd/c03 and cmd/plugin: syntactic extraction on single functions (no aliasing analysis)",
